@@ -553,6 +553,26 @@ def rule_R11b(text, log):
     return pat.sub(repl, text)
 
 
+def rule_R16(text, log):
+    """X.contains("lit") -> str_contains(X, "lit");  X.replace("a", "b") -> str_replace(X, "a", "b"):
+    both are generic over the external trait Pattern; the wrappers are external_body, their body is
+    the same call, their contract (substring search / leftmost non-overlapping replacement) is assumed"""
+    lit = r'"(?:[^"\\]|\\.)*"'
+    pat1 = re.compile(r'\b([A-Za-z_][A-Za-z0-9_]*)\.contains\((%s)\)' % lit)
+    pat2 = re.compile(r'\b([A-Za-z_][A-Za-z0-9_]*)\.replace\((%s), (%s)\)' % (lit, lit))
+
+    def repl1(m):
+        new = 'str_contains(%s, %s)' % (m.group(1), m.group(2))
+        log.append({'rule': 'R16', 'before': m.group(0), 'after': new})
+        return new
+
+    def repl2(m):
+        new = 'str_replace(%s, %s, %s)' % (m.group(1), m.group(2), m.group(3))
+        log.append({'rule': 'R16', 'before': m.group(0), 'after': new})
+        return new
+    return pat2.sub(repl2, pat1.sub(repl1, text))
+
+
 def rule_R11c(text, log):
     """E.parse() (target type inferred as f64) -> parse_f64(&E) where E is a call expression"""
     pat = re.compile(r'\b(str_remove_char\([^()]*\))\.parse\(\)')
@@ -630,7 +650,7 @@ def rule_R5(text, log):
     return text
 
 
-RULES = {'R4s': rule_R4s, 'R11c': rule_R11c, 'R13': rule_R13, 'R14': rule_R14, 'R5c': (lambda text, log: text), 'R12': rule_R12, 'R11b': rule_R11b, 'R9': rule_R9, 'R10': rule_R10, 'R11': rule_R11, 'R1': rule_R1, 'R1f': rule_R1f, 'R3f': rule_R3f, 'R8': rule_R8, 'R2': rule_R2, 'R2b': rule_R2b, 'R7': rule_R7, 'R3': rule_R3, 'R4': rule_R4, 'R5': rule_R5}
+RULES = {'R16': rule_R16, 'R4s': rule_R4s, 'R11c': rule_R11c, 'R13': rule_R13, 'R14': rule_R14, 'R5c': (lambda text, log: text), 'R12': rule_R12, 'R11b': rule_R11b, 'R9': rule_R9, 'R10': rule_R10, 'R11': rule_R11, 'R1': rule_R1, 'R1f': rule_R1f, 'R3f': rule_R3f, 'R8': rule_R8, 'R2': rule_R2, 'R2b': rule_R2b, 'R7': rule_R7, 'R3': rule_R3, 'R4': rule_R4, 'R5': rule_R5}
 
 
 def strip_doc_comments(text):
